@@ -39,7 +39,13 @@ impl ProcessRegistry {
     }
 
     pub async fn remove(&self, pid: &ExternalPid) -> Option<ProcessHandle> {
-        self.by_pid.write().await.remove(pid)
+        let handle = self.by_pid.write().await.remove(pid);
+        // a process that is gone no longer holds its registered names
+        self.by_name
+            .write()
+            .await
+            .retain(|_, registered| registered != pid);
+        handle
     }
 
     pub async fn get(&self, pid: &ExternalPid) -> Option<ProcessHandle> {
